@@ -186,8 +186,9 @@ def synthetic(draw):
             continue
         name = None
         if kind == 'explicit':
-            line = draw(st.integers(1, 40))
-            col = draw(st.integers(1, 60))
+            # deltas around the digit boundaries of the VLQ encoding (16, 32, 64, 512, 1024) in both directions
+            line = draw(st.one_of(st.integers(1, 40), st.sampled_from([1, 17, 33, 65, 129, 513, 1025, 2000])))
+            col = draw(st.one_of(st.integers(1, 60), st.sampled_from([1, 2, 17, 33, 65, 66, 129, 513, 1025, 4097])))
             if draw(st.integers(0, 3)) == 0:
                 name = draw(st.sampled_from(['orig', 'longOriginalName', 'x', 'orig', 'console', 'second', 'third']))
             frags.append((text, line, col, name, source))
